@@ -503,7 +503,7 @@ func traverse(h *harness.H, layer string, c int, l *layout, k cesium.ChannelKey,
 	}
 	var got []byte
 	limit := int(b-a) + 3*len(want) + 20
-	misses := 0
+	prevView := res.View
 	for i := 0; i < limit && !w.dead; i++ {
 		res = runUnary(it, step)
 		w.check(step, res)
@@ -519,14 +519,13 @@ func traverse(h *harness.H, layer string, c int, l *layout, k cesium.ChannelKey,
 		if atEnd {
 			break
 		}
-		if !res.OK {
-			misses++
-			if span == -1 && misses >= 2 {
-				break // auto-span stepping stops at the end of data
-			}
-		} else {
-			misses = 0
+		// An empty step is not the end: a data channel may hold no sample where its
+		// index does. The walk ends at the end of the bounds, on an accumulated error
+		// (the iterator is dead until the next seek) or when the view stops moving.
+		if res.Err != nil || res.View == prevView {
+			break
 		}
+		prevView = res.View
 	}
 	h.Count("traversals", 1)
 	if !bytes.Equal(got, concat(want)) {
